@@ -25,6 +25,7 @@ UNIT_PROPS = {
     "service_relay": ["C11"],
     "fetch_ancestry": ["C02", "C01"],
     "wire_codec": ["C15"],
+    "fetch_validate": ["C01"],
 }
 
 CRYPTO_GROUP = ["signature_roundtrip", "public_key_roundtrip"]
@@ -62,11 +63,11 @@ PROPS = {
         "not_decided": "Round-trip direction decode(enc(v)) == Ok(v) (that every encoding is accepted) is not proved -- the quickcheck tests sample it; it would need a success condition per decoder. NodeAnnouncement (alias/user-agent strings, addresses from cyphernet, optional trailing agent), String/&str, Refs/SignedRefs, git::Url, Address, VarInt/frames (C14) are outside the unit: NodeAnnouncement is an opaque leaf with assumed Encode/Decode contracts. Assumed: byteorder read/write_uN are big-endian, io::Read/Write stream models, Vec::with_capacity(n).capacity() == n, bloomy's filter is its byte array, `enum as u16` yields the discriminant, InfoType::try_from (4-line match, see unit), byte counters do not overflow usize.",
     },
     "C01": {
-        "vx": ["fetch_run", "fetch_ancestry", "refs_verify"],
+        "vx": ["fetch_run", "fetch_validate", "fetch_ancestry", "refs_verify"],
         "kx": [],
         "technique": "Verus sink precondition on the extracted FetchState::run: repository::update may only see tips of namespaces that the validation oracle accepted (loop invariant over the validation loop, prune contract); Verus contract on SignedRefs::verify (signature by the namespace key over the canonical text, identity root names this repository)",
-        "explanation": "FetchState::run (the whole validation loop with all four DelegateStatus arms, continue/early-return paths) is verified: at the single call that writes to the git repository, every non-blocked remote among the advertised signed-refs remotes that still has tips was reported valid by sigrefs::validate and its advertised rad/sigrefs is neither behind nor diverged from the stored one (delegate or not); FetchState::prune is proved to remove exactly that remote's tips/ids/sigrefs. SignedRefs::verify/verified accept only when the ed25519 check of the claimed key over Refs::canonical succeeds and refs/rad/root resolves to an identity document whose blob id is this repository's id.",
-        "not_decided": "Cached::validate_remote (the ref-by-ref comparison) and DataRefs::prepare_updates are assumed oracles/stand-ins here; the iterator chains computing the delegate key set are stand-ins; the protocol stages (network, in-memory refdb) are arbitrary; that a namespace left out of `tips` is byte-for-byte untouched by libgit2 is outside any contract.",
+        "explanation": "FetchState::run (the whole validation loop with all four DelegateStatus arms, continue/early-return paths) is verified: at the single call that writes to the git repository, every non-blocked remote among the advertised signed-refs remotes that still has tips was reported valid by sigrefs::validate and its advertised rad/sigrefs is neither behind nor diverged from the stored one (delegate or not); FetchState::prune is proved to remove exactly that remote's tips/ids/sigrefs. Unit fetch_validate proves what 'reported valid' means: <Cached as ValidateRepository>::validate_remote (both loops) returns no findings only if the fetched namespace contains refs/rad/sigrefs and otherwise exactly the signed refs, each at the signed oid; sigrefs::validate returns None exactly then. SignedRefs::verify/verified accept only when the ed25519 check of the claimed key over Refs::canonical succeeds and refs/rad/root resolves to an identity document whose blob id is this repository's id.",
+        "not_decided": "DataRefs::prepare_updates is a stand-in; the link between unit fetch_run's ghost `validated(r)` and unit fetch_validate's `matches_signed` is by name only (two units); Refdb::references_of is assumed to enumerate the namespace's refs exactly once; the iterator chains computing the delegate key set are stand-ins; the protocol stages (network, in-memory refdb) are arbitrary; that a namespace left out of `tips` is byte-for-byte untouched by libgit2 is outside any contract.",
     },
     "C02": {
         "vx": ["fetch_run", "fetch_ancestry"],
